@@ -97,6 +97,41 @@ def se_selector(ctx, rep):
         rep.check(good, "SE4", "registered-as-direct-subscriber-untouched", ctx.where(sw), "subscribe_with_selector = add_subscriber(Arc::new(SelectorSubscriber::new(selector, on_change)))", "subscribe_with_selector calls %s" % names)
 
 
+def se5_last_value_single_writer(ctx, rep):
+    """the remembered value is written only by the notification path (and initialised by new)"""
+    A = ctx.A
+    on = A.method("SelectorSubscriber", "on_notify", "Subscriber")
+    nw = A.method("SelectorSubscriber", "new")
+    n = 0
+    for b in ctx.prog.bodies:
+        bp = ctx.prog.bp(b)
+        touched = []
+        for s in ctx.prog.sites(b):
+            if s.ck.startswith("std::sync::Mutex::") and s.term["args"]:
+                t = strip_wrap(bp.arg_term(s.bb, 0))
+                if t[0] == "field" and t[2] == "last_value":
+                    touched.append(s)
+        if not touched:
+            continue
+        n += 1
+        rep.check(b.path in (on.path, nw.path), "SE5", "last_value-only-touched-by-on_notify:%s" % short(b.path), touched[0].where, "%s is the notification path" % short(b.path), "%s also locks/changes the remembered value: the 'last delivered' state no longer follows the notification stream" % short(b.path))
+    rep.floor("SE5", "functions touching last_value", n, 1)
+    # no other hidden state: on_unsubscribe of the selector subscriber stays the trait default
+    ov = [b for b in ctx.impls_of("Subscriber", "on_unsubscribe") if (b.j.get("impl_adt") or "").endswith("SelectorSubscriber")]
+    rep.check(not ov, "SE5", "no-lifecycle-state", ctx.where(ov[0]) if ov else "", "SelectorSubscriber keeps the default on_unsubscribe (no state changed by the lifecycle)", "SelectorSubscriber::on_unsubscribe is overridden: delivery now depends on subscription lifecycle events")
+    # every path of on_notify reaches the compare/deliver logic: fields read before it are only
+    # selector / last_value / on_change
+    fields = set()
+    for s in ctx.prog.sites(on):
+        bp = ctx.prog.bp(on)
+        for ai in range(len(s.term["args"])):
+            t = strip_wrap(bp.arg_term(s.bb, ai))
+            if t[0] == "field" and t[1] == ("param", 1):
+                fields.add(t[2])
+    extra = fields - {"selector", "last_value", "on_change"}
+    rep.check(not extra, "SE5", "on_notify-depends-only-on-selection-state", ctx.where(on), "on_notify reads only selector, last_value and on_change", "on_notify also depends on %s" % sorted(extra))
+
+
 # ---- C15 -----------------------------------------------------------------------------------------
 def ds_droppable(ctx, rep):
     A = ctx.A
